@@ -2,7 +2,7 @@
    plus what the Go implementation did; [check] evaluates the model and
    compares projected observables. *)
 Require Import Avro.Model.Base Avro.Model.Prim Avro.Model.Schema Avro.Model.GoType
-               Avro.Model.Blocks Avro.Model.Time Avro.Model.Spec Avro.Model.Codec Avro.Model.SchemaGen.
+               Avro.Model.Blocks Avro.Model.Time Avro.Model.Spec Avro.Model.Codec Avro.Model.SchemaGen Avro.Model.Layout.
 Require Import Avro.Corr.Common.
 Export Avro.Model.Base Avro.Model.Schema Avro.Model.GoType Avro.Model.Spec Avro.Model.Codec Avro.Corr.Common.
 
@@ -135,7 +135,8 @@ Inductive case :=
 | KSkip (g : gschema) (t : gtype) (bs : bytes) (impl : ires)                (* Codec.Skip *)
 | KWrite (g : gschema) (t : gtype) (v : gval) (impl : option bytes) (want : datum)   (* Codec.Write; want = datum the value denotes *)
 | KSchema (t : gtype) (impl : option gschema)                               (* SchemaForType *)
-| KSpecEnc (g : gschema) (d : datum) (ch : choice) (bs : bytes).            (* the harness's own encoder against spec_encode *)
+| KSpecEnc (g : gschema) (d : datum) (ch : choice) (bs : bytes)             (* the harness's own encoder against spec_encode *)
+| KLayout (t : gtype) (size align : Z) (offsets : list Z).                  (* reflect's Size / Align / field offsets *)
 
 Definition fuel_for (bs : bytes) : nat := (4 * length bs + 64)%nat.
 
@@ -188,6 +189,12 @@ Definition check (c : case) : bool :=
       let s := classify g in
       typed s d && bytes_eqb (spec_encode ch s d) bs &&
       match sd (fuel_for bs) s bs with Done d' [] => datum_eqb d d' | _ => false end
+  | KLayout t size align offsets =>
+      (sizeof t =? size) && (alignof t =? align) &&
+      match underlying t with
+      | TStruct _ _ gfs => list_eqb Z.eqb (field_offsets gfs 0) offsets
+      | _ => true
+      end
   end.
 
 Definition bad_ids := bad_ids_gen check.
